@@ -76,6 +76,34 @@ func init() {
 		}
 		b.WriteString("].\n\n")
 
+		// ---- config/config.go: the flags and the yaml key that feed the verdict's configuration
+		_, f, err = parseFile(repo, "config/config.go")
+		if err != nil {
+			return "", err
+		}
+		tags, err := fieldTags(f, map[string]string{"Json": "cli", "VerboseWarning": "cli", "VerboseInfo": "cli", "VerboseLevel": "yaml", "Rules": "yaml"})
+		if err != nil {
+			return "", err
+		}
+		fmt.Fprintf(&b, "Definition flag_json : list byte := Eval compute in %s.\n", bs(tags["Json"]))
+		fmt.Fprintf(&b, "Definition flag_verbose_warning : list byte := Eval compute in %s.\n", bs(tags["VerboseWarning"]))
+		fmt.Fprintf(&b, "Definition flag_verbose_info : list byte := Eval compute in %s.\n", bs(tags["VerboseInfo"]))
+		fmt.Fprintf(&b, "Definition yaml_key_verbose : list byte := Eval compute in %s.\n", bs(tags["VerboseLevel"]))
+		fmt.Fprintf(&b, "Definition yaml_key_rules : list byte := Eval compute in %s.\n", bs(tags["Rules"]))
+		levels, err := verboseLevels(f)
+		if err != nil {
+			return "", err
+		}
+		b.WriteString("(* (value of the yaml verbose key, the config field it switches on) *)\nDefinition yaml_verbose_levels : list (list byte * list byte) := Eval compute in [\n")
+		for i, w := range levels {
+			sep := ";"
+			if i == len(levels)-1 {
+				sep = ""
+			}
+			fmt.Fprintf(&b, "  (%s, %s)%s\n", bs(w[0]), bs(w[1]), sep)
+		}
+		b.WriteString("].\n\n")
+
 		// ---- rule names
 		_, f, err = parseFile(repo, "linter/rules.go")
 		if err != nil {
@@ -211,6 +239,80 @@ func overrideWords(f *ast.File) ([][2]string, error) {
 	})
 	if len(out) != 4 {
 		return nil, fmt.Errorf("cmd/falco/runner.go: expected 4 override level words in NewRunner, found %d", len(out))
+	}
+	return out, nil
+}
+
+// the first name of the given struct tag of the named fields (any struct of the file)
+func fieldTags(f *ast.File, want map[string]string) (map[string]string, error) {
+	out := map[string]string{}
+	ast.Inspect(f, func(n ast.Node) bool {
+		st, ok := n.(*ast.StructType)
+		if !ok {
+			return true
+		}
+		for _, fld := range st.Fields.List {
+			if fld.Tag == nil || len(fld.Names) != 1 {
+				continue
+			}
+			key, ok := want[fld.Names[0].Name]
+			if !ok {
+				continue
+			}
+			if _, done := out[fld.Names[0].Name]; done {
+				continue
+			}
+			raw, _ := strconv.Unquote(fld.Tag.Value)
+			for _, part := range strings.Fields(raw) {
+				if strings.HasPrefix(part, key+":") {
+					v, _ := strconv.Unquote(strings.TrimPrefix(part, key+":"))
+					out[fld.Names[0].Name] = strings.Split(v, ",")[0]
+				}
+			}
+		}
+		return true
+	})
+	for k := range want {
+		if out[k] == "" {
+			return nil, fmt.Errorf("config/config.go: struct tag of field %s not found", k)
+		}
+	}
+	return out, nil
+}
+
+// switch c.Linter.VerboseLevel { case "warning": c.Linter.VerboseWarning = true ... }
+func verboseLevels(f *ast.File) ([][2]string, error) {
+	var out [][2]string
+	ast.Inspect(f, func(n ast.Node) bool {
+		sw, ok := n.(*ast.SwitchStmt)
+		if !ok {
+			return true
+		}
+		sel, ok := sw.Tag.(*ast.SelectorExpr)
+		if !ok || sel.Sel.Name != "VerboseLevel" {
+			return true
+		}
+		for _, st := range sw.Body.List {
+			cc := st.(*ast.CaseClause)
+			if len(cc.List) != 1 || len(cc.Body) != 1 {
+				continue
+			}
+			lit, ok := cc.List[0].(*ast.BasicLit)
+			as, ok2 := cc.Body[0].(*ast.AssignStmt)
+			if !ok || !ok2 || len(as.Lhs) != 1 {
+				continue
+			}
+			lhs, ok := as.Lhs[0].(*ast.SelectorExpr)
+			if !ok {
+				continue
+			}
+			w, _ := strconv.Unquote(lit.Value)
+			out = append(out, [2]string{w, lhs.Sel.Name})
+		}
+		return false
+	})
+	if len(out) != 2 {
+		return nil, fmt.Errorf("config/config.go: expected 2 cases in the switch over c.Linter.VerboseLevel, found %d", len(out))
 	}
 	return out, nil
 }
